@@ -500,7 +500,7 @@ def illtyped(r, g: Gen):
         "not-on-nonbool": f"NOT {r.choice([i, 'instrument', 'null'])}",
         "point-nonliteral": f"visit.region OVERLAPS POINT({r.choice(['detector', chr(39) + 'a' + chr(39), 'null', '1 + 1'])}, 2)",
         "in-lhs-null": "null IN (1)",
-        "unbound-name": f"detector = :{r.choice(['nobody', 'zz', 'D2'])}",
+        "unbound-name": f"detector = :{r.choice(['nobody', 'zz', 'D2', 'visit', 'exposure', 'detector'])}",
         "arith-on-bool": f"({b}) + 1 = 1",
     }[fam]
     return fam, s
@@ -862,6 +862,22 @@ CONV_EDGE = [
 ]
 
 
+# the hand-written strings that the DOCUMENTED rules make invalid (queries.rst: boolean expression required, bind names
+# must be in the bind map, IN takes a scalar on the left and literals / identifiers / ranges of its type on the right,
+# NOT / AND / OR take booleans, unary sign takes a number, NULL only with = / !=): oracle, independent of the model
+CONV_EDGE_REJECT = {
+    "1", "null", "null = null", "detector < null", "+instrument = 'a'", "+null = 1", "-:s = 'g'", "-null = 1", "NOT detector", "NOT null", "NOT :d",
+    "detector IN ('a')", "detector IN (:names)", "detector IN (:mixed)", "detector IN (:nobody)", "detector IN (instrument)", "instrument IN (1..5)",
+    "instrument IN (:ids)", "visit.exposure_time IN (1..5)", "null IN (1)", "(detector = 1) IN (1)", ":ids IN (1)", ":ids = 1", "detector = :ids",
+    "detector = :visit", "instrument = :band", "detector IN (:visit)", ":detector = 1", "detector = :T0", "detector = instrument",
+    "detector = 1 AND 2", "detector OR visit", "detector = 1 OR instrument", "(detector = 1) + 1 = 2", "foo(1)", "foo()", "foo(1, 2) = 1", "max(detector) = 1",
+    "POINT(1, 2)", "detector = 1..5", "1..5", "NOT 1..5", "(1..5)", "detector = nosuch", "detector.nosuch = 1", "a.b.c = 1", "visit.timespan.middle = 1",
+    "x_y = 1", "instrument + 'a' = 'b'", "(1, 2) OVERLAPS visit.timespan", "('2020-01-01', null) OVERLAPS visit.timespan", "(:d, null) OVERLAPS visit.timespan",
+    "visit.region OVERLAPS POINT(detector, 2)", "visit.region OVERLAPS POINT('a', 2)", "visit.region OVERLAPS POINT(:s, 1)", "visit.region OVERLAPS POINT(null, 2)",
+    "detector = T'2020-01-01'", "visit.timespan.begin = T'garbage'", "detector = 1 #", "detector == 1", "detector = 1 AND", "a b", "visit.exposure_time = '1'",
+}
+
+
 def cvalue(v) -> str:
     k = v[0]
     if k == "int":
@@ -902,7 +918,8 @@ def _conv_stage(ctx: Ctx, r, cases, hdr: str, first: bool):
     keep = {"conv-edge": 1.0, "corpus": 1.0, "replay": 1.0, "illtyped-family": 1.0, "valid": 1.0, "mutant": 1.0, "edge": 1.0,
             "paren": 0.1, "syntax-family": 0.15, "garbage": 0.3}
     seen, todo = set(), []
-    for c in ([{"s": s, "kind": "conv-edge"} for s in CONV_EDGE] if first else []) + cases:
+    assert CONV_EDGE_REJECT <= set(CONV_EDGE)
+    for c in ([{"s": s, "kind": "conv-edge", "must_reject": s in CONV_EDGE_REJECT, "family": "edge"} for s in CONV_EDGE] if first else []) + cases:
         if c["s"] in seen or (c["kind"] == "valid" and c.get("style") != "plain") or r.random() >= keep.get(c["kind"], 1.0):
             continue
         # Predicate.logical_or / logical_not multiply the conjunctive normal form out (exponential in nested NOT/AND/OR:
